@@ -7,7 +7,7 @@ RULE = ("keys from seeds (seeded and unseeded generation through the RNG tap, tw
         "0, 1 and the lengths straddling the 136-byte block after the key-hash prefix, long messages; deterministic, hedged / "
         "randomized (real RNG on the implementation, scripted tape for the model comparison), contexts 0..255 bytes, SHA-256 and "
         "SHA-512 pre-hash; every returned signature is checked for exact length and fed to the matching verification entry point. "
-        "distinct_nontrivial = distinct sign requests; the evidence reports how many signatures needed more than one iteration.")
+        "distinct_nontrivial = distinct sign requests; the evidence reports how many signatures needed more than one iteration. Raw signing into buffers 1/33/64 bytes longer than SIGNBYTES: the written signature must verify.")
 EXPLANATION = ("Props/C01.lean: the signing loop returns exactly the first accepted iteration's packed signature (loop logic); the "
                "algebraic completeness theorem (accepted iteration => verify accepts) and termination are not theorems here: partial. "
                "The tie runs sign-then-verify over all entry points.")
@@ -69,7 +69,7 @@ def followup(stage, lines, model, checked, release, tier, rng):
                     t = r.split(" ")
                     if "::SecretKey::" in t[0]:
                         t[0] = t[0].replace("::SecretKey::", "::Keypair::"); t[1] = sk + pk
-                        tw = "@impl " + " ".join(t)
+                        tw = " ".join(t)      # the Keypair entry points are part of the model: compared with it as well
                         _st.setdefault("twins", []).append((tw, r))
                         L.append(tw)
         return L
@@ -102,7 +102,7 @@ def followup(stage, lines, model, checked, release, tier, rng):
                 sk0 = _st.get("sk_of", {}).get(e["pk"])
                 if sk0:
                     t[1] = sk0 + e["pk"]
-                    tw = "@impl " + " ".join(t)
+                    tw = " ".join(t)      # the Keypair entry points are part of the model: compared with it as well
                     _st.setdefault("twins", []).append((tw, v))
                     L.append(tw)
         return L
@@ -124,7 +124,7 @@ def violated_all(lines, model, checked, release):
             continue
         for prof, ans in (("checked", checked), ("wrapping", release)):
             if ans[i] != ans[j]:
-                out.append((i, "%s build: %s answers %s where %s answers %s on the same key material and arguments" % (prof, tw.split()[1], ans[i][:40], orig.split()[0], ans[j][:40])))
+                out.append((i, "%s build: %s answers %s where %s answers %s on the same key material and arguments" % (prof, tw.replace("@impl ", "").split()[0], ans[i][:40], orig.split()[0], ans[j][:40])))
     for e in _st["pairs"]:
         i = idx.get(e["req"])
         if i is None:
@@ -132,6 +132,8 @@ def violated_all(lines, model, checked, release):
         p = S.P(e["set"])
         for prof, ans in (("checked", checked), ("wrapping", release)):
             sig = K.sig_of(ans[i])
+            if sig is None and "signature_cap" in e["req"] and not ans[i].startswith("ok"):
+                continue      # a longer buffer refused outright: no signature was produced, nothing to verify
             if sig is None:
                 out.append((i, "%s build: signing returned no signature (%s)" % (prof, ans[i][:30])))
                 continue
